@@ -274,7 +274,19 @@ def core_shard(seed: int, shard: int, n: int, opts: dict) -> dict:
             stats["nontrivial"].add(h)
         for pid in wanted:
             props.set_case(c)
-            for f in getattr(props, "oracle_" + pid)(c, real, model):
+            try:
+                found = getattr(props, "oracle_" + pid)(c, real, model)
+            except Exception as e:  # noqa
+                # a result holding an object of a type no validator documents (tagged "unknown" by the wire) cannot be
+                # rebuilt as an input; that is the library's doing, not the harness's: report it, do not crash
+                blob = json.dumps({m: real[m].get("out") for m in engine.MODES}, default=str)
+                if '"t": "unknown"' not in blob:
+                    raise
+                import re as _re
+                ty = _re.search(r'"type": "([^"]*)"', blob)
+                found = [f"the result holds an object of a type no validator documents ({ty.group(1) if ty else '?'}); "
+                         f"the oracle could not go on ({type(e).__name__})"]
+            for f in found:
                 failures.append({"property": pid, "case": c, "xd": real["xd"], "what": f,
                                  "real": {m: real[m] for m in engine.MODES}})
         if len(samples) < 2 and nontrivial:
